@@ -537,8 +537,9 @@ def run_c15(tier, seed, workdir):
                     rejected[f"{c['id']}/{par}"] = bool(unsat)
                     if child_end[0] == 'error' and not unsat:
                         # the calling act carries the error code its child ended with
-                        acode = next((l.split(' ')[2] for l in pl_lines if l.startswith(f'E {act} ')), None)
-                        ccode = next((l.split(' ')[2] for l in ch_lines if l.startswith('E 0 ')), None)
+                        # ... and its message: code and message are compared as a pair
+                        acode = next((tuple(l.split(' ')[2:4]) for l in pl_lines if l.startswith(f'E {act} ')), None)
+                        ccode = next((tuple(l.split(' ')[2:4]) for l in ch_lines if l.startswith('E 0 ')), None)
                         stats['error_code_compared'] += 1
                         outs_ok = int(acode is not None and acode == ccode)
                         if not outs_ok and declared:
